@@ -87,8 +87,10 @@ type (
 		NP *CInnerCoded `serix:""`
 	}
 
-	CShape    interface{}
-	CSquare   struct{ Size uint8 `serix:""` }
+	CShape  interface{}
+	CSquare struct {
+		Size uint8 `serix:""`
+	}
 	CRect     struct{ W, H uint8 }
 	CTriangle struct {
 		Size uint16 `serix:""`
@@ -102,21 +104,25 @@ type (
 		Inner *CContainer `serix:",optional"`
 	}
 
-	CWide   interface{}
-	CWideA  struct{ V uint64 `serix:""` }
-	CWideB  struct{ V CShape `serix:""` }
-	CWides  struct {
+	CWide  interface{}
+	CWideA struct {
+		V uint64 `serix:""`
+	}
+	CWideB struct {
+		V CShape `serix:""`
+	}
+	CWides struct {
 		L []CWide `serix:",lenPrefix=uint16"`
 	}
 
 	CArrays struct {
-		A3  [3]uint16    `serix:",lenPrefix=uint8"`
-		A0  [0]uint32    `serix:",lenPrefix=uint16"`
-		AS  [2]CInner    `serix:",lenPrefix=uint32"`
-		AP  *[2]uint16   `serix:",lenPrefix=uint8"`
-		AB  *CID         `serix:""`
-		AA  [2][2]uint8  `serix:",lenPrefix=uint8"`
-		ABm [2][3]byte   `serix:",lenPrefix=uint8"`
+		A3  [3]uint16   `serix:",lenPrefix=uint8"`
+		A0  [0]uint32   `serix:",lenPrefix=uint16"`
+		AS  [2]CInner   `serix:",lenPrefix=uint32"`
+		AP  *[2]uint16  `serix:",lenPrefix=uint8"`
+		AB  *CID        `serix:""`
+		AA  [2][2]uint8 `serix:",lenPrefix=uint8"`
+		ABm [2][3]byte  `serix:",lenPrefix=uint8"`
 	}
 
 	CMaps struct {
@@ -129,10 +135,10 @@ type (
 	}
 
 	CSlices struct {
-		Sorted CSorted    `serix:""`
-		U16s   CU16s      `serix:""`
-		Nested [][]uint16 `serix:",lenPrefix=uint8"`
-		Ptrs   []*CInner  `serix:",lenPrefix=uint8,maxLen=3"`
+		Sorted CSorted     `serix:""`
+		U16s   CU16s       `serix:""`
+		Nested [][]uint16  `serix:",lenPrefix=uint8"`
+		Ptrs   []*CInner   `serix:",lenPrefix=uint8,maxLen=3"`
 		Times  []time.Time `serix:",lenPrefix=uint8"`
 	}
 
@@ -144,6 +150,11 @@ type (
 	}
 	CPtrScalar struct {
 		P *uint16 `serix:",optional"`
+	}
+	CPtrArrays struct {
+		P [1]*CInner                `serix:",lenPrefix=uint8"`
+		M map[uint8][1]*CInnerCoded `serix:",lenPrefix=uint8"`
+		I [2]CShape                 `serix:",lenPrefix=uint16"`
 	}
 	CEmpty      struct{}
 	CEmptyDups  []CEmpty
@@ -216,6 +227,9 @@ var catalogue = []catEntry{
 	{name: "wides", top: CWides{}},
 	{name: "arrays", top: CArrays{}},
 	{name: "maps", top: CMaps{}},
+	{name: "ptr-arrays", top: CPtrArrays{}, prep: func(api *serix.API) {
+		must(api.RegisterTypeSettings([1]*CInnerCoded{}, lpTS(serix.LengthPrefixTypeAsByte)))
+	}},
 	{name: "slices", top: CSlices{}},
 	{name: "bad-lp64", top: CBad{}},
 	{name: "no-prefix", top: CNoPrefix{}},
